@@ -43,9 +43,31 @@ func ruleCmpDir(p *Prog, r *Result) {
 				lv, rv, rev := ssa.Value(fn.Params[1]), ssa.Value(fn.Params[2]), ssa.Value(fn.Params[3])
 				key := p.FName(fn)
 				sawMinus, bad := false, ""
+				// the NaN region: blocks only reached over the true edge of a test `x != x` on an operand. What the
+				// comparator answers there is its choice of a place for NaN (CMPMIXED asks that it has one); the
+				// direction rule is about ordinary values
+				ordinary := map[*ssa.BasicBlock]bool{}
+				var walkO func(b *ssa.BasicBlock)
+				walkO = func(b *ssa.BasicBlock) {
+					if ordinary[b] {
+						return
+					}
+					ordinary[b] = true
+					for si, sc := range b.Succs {
+						if f := ifOf(b); f != nil && si == 0 {
+							if bo, ok := f.Cond.(*ssa.BinOp); ok && bo.Op == token.NEQ && bo.X == bo.Y && (bo.X == lv || bo.X == rv) {
+								continue
+							}
+						}
+						walkO(sc)
+					}
+				}
+				if len(fn.Blocks) > 0 {
+					walkO(fn.Blocks[0])
+				}
 				for _, b := range fn.Blocks {
 					ret := retOf(b)
-					if ret == nil {
+					if ret == nil || !ordinary[b] {
 						continue
 					}
 					c, isC := constInt(retVal(ret, 0))
